@@ -83,7 +83,7 @@ def logger_rules(chk):
     if not (len(outs) == 1 and outs[0].kind == "return" and outs[0].value == ("attr", TARGET, "demand")):
         chk.bad(rule, g.qual, "demand read through a Logger is not exactly the target's demand", node=g.node, stmt="getter")
     v = ("sym", s.params()[0])
-    outs = Interp(prog, s).run()
+    outs = Interp(prog, s, inline=lambda f, ct: f.cls is cls and not f.is_async).run()
     chk.count(len(outs))
     ok = True
     emission_keys = None
